@@ -28,7 +28,7 @@ Local Open Scope string_scope.
 (* keys sorted (code-point order = byte order on UTF-8) at every depth; anything json cannot
    serialise goes through default=str: in the value domain of the model that is a datetime,
    rendered by str(), supplied as dts (the model never formats a datetime itself) — so a datetime
-   and the string that spells it collide (finding F23; switch below). *)
+   and the string that spells it collide (finding F25; switch below). *)
 Fixpoint insert_kv (kv : string * value) (l : list (string * value)) : list (string * value) :=
   match l with
   | [] => [kv]
@@ -37,8 +37,8 @@ Fixpoint insert_kv (kv : string * value) (l : list (string * value)) : list (str
 Definition sort_kvs (l : list (string * value)) : list (string * value) := fold_right insert_kv [] l.
 
 Section Canon.
-  (* Some f: datetimes go through default=str, f = str(datetime) (the tree as it is: finding F23);
-     None: datetimes stay apart from every string (the behaviour after a repair of F23) *)
+  (* Some f: datetimes go through default=str, f = str(datetime) (the tree as it is: finding F25);
+     None: datetimes stay apart from every string (the behaviour after a repair of F25) *)
   Variable dts : option (bool -> Z -> string).      (* aware?, microseconds *)
   Fixpoint canon (v : value) : value :=
     match v with
